@@ -268,7 +268,20 @@ func (s *session) observe(cross bool) (*view, *finding) {
 	if f != nil || !cross {
 		return v, f
 	}
-	// public API against the snapshot
+	return v, s.crossCheck(v)
+}
+
+// crossCheck compares the public API views with a snapshot taken just before (only
+// meaningful when nothing runs concurrently).
+func (s *session) crossCheck(v *view) *finding { return s.crossCheckWith(v, accounts[:nSenders]) }
+
+func (s *session) crossCheckWith(v *view, accts []*account) *finding {
+	var f *finding
+	note := func(key, what string) {
+		if f == nil {
+			f = &finding{key, what}
+		}
+	}
 	cp, cq := s.pool.Content()
 	pp, _ := s.pool.Pending()
 	sameList := func(a types.Transactions, b []*txrec) bool {
@@ -300,7 +313,7 @@ func (s *session) observe(cross bool) (*view, *finding) {
 		note("api-mismatch:stats", fmt.Sprintf("Stats() = %d/%d, lists hold %d/%d", np, nq, vp, vq))
 	}
 	head := s.ch.Head()
-	for _, a := range accounts[:nSenders] {
+	for _, a := range accts {
 		fp, fq := s.pool.ContentFrom(a.addr)
 		if !sameList(fp, v.pending[a.addr]) || !sameList(fq, v.queued[a.addr]) {
 			note("api-mismatch:content-from", fmt.Sprintf("ContentFrom(%x) differs from the snapshot", a.addr[:3]))
@@ -331,14 +344,17 @@ func (s *session) observe(cross bool) (*view, *finding) {
 	if len(loc) != len(v.locals) {
 		note("api-mismatch:locals", fmt.Sprintf("Locals() has %d entries, snapshot %d", len(loc), len(v.locals)))
 	}
-	return v, f
+	return f
 }
 
 // settle = observe + structural (+ limits at the fixpoint).
 func (s *session) check(atFixpoint bool) *view {
-	v, f := s.observe(!s.lifetime)
+	v, f := s.observe(false)
 	if f == nil {
 		f = checkStructural(v, s.ch.Head())
+	}
+	if f == nil && !s.lifetime {
+		f = s.crossCheck(v)
 	}
 	if f == nil && atFixpoint {
 		f = checkLimits(v, s.ch.Head(), s.lim)
